@@ -86,7 +86,7 @@ def edge_dominated(fn):
 
 def conditions_at(fn, bid):
     """branch conditions known on entry to block `bid` by edge dominance:
-    list of (cond expr, polarity(bool) | case value, branch block). The caller is
+    list of (cond expr, polarity(bool) | case value, (branch block, successor index)). The caller is
     responsible for checking that the operands are not overwritten in between."""
     out = []
     for (d, j), blocks in edge_dominated(fn).items():
@@ -95,9 +95,9 @@ def conditions_at(fn, bid):
             if b.get('term', {}).get('kind') == 'SwitchStmt':
                 tgt = fn.blocks[b['succs'][j]]
                 lab = tgt.get('label', {})
-                out.append((b['stmts'][-1] if b['stmts'] else b['term'].get('cond'), ('case', lab.get('v') if lab.get('kind') == 'CaseStmt' else 'default'), d))
+                out.append((b['stmts'][-1] if b['stmts'] else b['term'].get('cond'), ('case', lab.get('v') if lab.get('kind') == 'CaseStmt' else 'default'), (d, j)))
             elif len(b['succs']) == 2 and b['stmts']:
-                out.append((b['stmts'][-1], j == 0, d))
+                out.append((b['stmts'][-1], j == 0, (d, j)))
     return out
 
 
